@@ -24,3 +24,95 @@ PROPS["C12"] = {
     "exhaustive": {"thorough": "Threshold(s) for every s in 1..10^6"},
     "assumptions": ["Go math.Erfc/Sqrt trusted", "reference Igamc validated against an mpmath table on every run"],
 }
+
+RULES["C06"] = ("cases: (a,x,x2) with a = k/2, k from shapes the tests use / [1,40] / [41,1000] / [1001,10000]; x from a mixture: a(1+d) and 1+d "
+                "with d log-uniform +-[1e-16,0.3] (both switch-over lines, both sides), a+z sqrt(a) z in [-8,12], uniform [0,20a+200], [0,3a], "
+                "0, negative, the prefactor-underflow cut-off (a ln x - x - lgamma a = -709.78, found by bisection) +- drawn width, tiny x; "
+                "x2 >= x is a 1-4 ulp neighbour, a relative 1e-12..0.3 neighbour or a far point (monotonicity). "
+                "non-trivial: reference Q strictly inside (1e-300,1). distinct: hash of (2a,x,x2).")
+PROPS["C06"] = {
+    "level": "exploration",
+    "quick": shards(8, "TestC06", 4000, floor=2000),
+    "thorough": shards(16, "TestC06", 60000, floor=20000),
+    "assumptions": ["reference = finite-sum closed form in 320-bit big.Float, validated against mpmath (600 points) on every run",
+                    "math.Erfc trusted (<= 1 ulp)", "x > 20a+200 is outside the stated range and not generated"],
+}
+
+_SEQ = ("sequences are recipes drawn by rapid from 14 structural families (explicit bits <=4096, uniform, biased, constant, alternating, periodic tile<=70, "
+        "sparse, markov, single transition, uniform+long run, run-list, forced-excursion walk, tone, balanced); lengths from a mixture "
+        "{minimum..minimum+3, regime boundaries +-2, <=5000, <=1e5, a few up to 1e6}. ")
+RULES["C01"] = (_SEQ + "tests: monobit (bits/bytes), block frequency (automatic m; explicit m small / near n / n / n/2 / arbitrary; bytes), poker m in {2,4,8} "
+                "(bits / byte fast paths), overlapping m in {2,3,5,7}, approximate entropy m in {2,5,7}; plus a deterministic sweep over the automatic "
+                "block-length boundaries (999,1000,...,10^6+1; thorough 10^8-1,10^8). oracle: independent transcription of GM/T 0005-2021 + big.Float igamc, "
+                "|dP|,|dQ| <= 1e-8. non-trivial: reference P strictly inside (1e-12, 1-1e-12). distinct: hash of the case JSON.")
+PROPS["C01"] = {
+    "level": "exploration",
+    "quick": shards(8, "TestC01", 1500, floor=500) + [S("TestC01Sweep", floor=10)],
+    "thorough": shards(15, "TestC01", 4000, floor=1500, timeout=3000) + [S("TestC01Sweep", floor=10), S("TestC01Sweep", mode="huge", floor=2, mem_gb=60)],
+    "assumptions": ["reference statistics are my transcription of the standard, validated on the annex known answers on every run",
+                    "math.Erfc/Log trusted"],
+}
+
+RULES["C02"] = (_SEQ + "tests: runs total (n from 1), runs distribution (n >= 100, lengths at the cut-off boundaries n = 5*2^(k+2)+k-3 +-2, run lengths pinned to k-1,k,k+1), "
+                "longest run of ones / zeros (n >= 128, lengths around 6272 and 750000, blockwise sequences whose per-block longest run is forced to each class edge). "
+                "oracle: run-decomposition reference; longest-run class tables re-derived by exact big-integer DP and rounded to printed precision; |dP|,|dQ| <= 1e-8. "
+                "non-trivial: >= 3 runs and reference P inside (1e-12,1-1e-12) (runs total: >= 3 runs). distinct: hash of the case JSON.")
+PROPS["C02"] = {
+    "level": "exploration",
+    "quick": shards(8, "TestC02", 1500, floor=500) + [S("TestC02Sweep", floor=20)],
+    "thorough": shards(15, "TestC02", 8000, floor=3000, timeout=3000) + [S("TestC02Sweep", floor=20)],
+    "assumptions": ["reference statistics validated on the annex known answers on every run", "math.Erfc trusted"],
+}
+
+RULES["C03"] = (_SEQ + "tests: binary derivative k in {3,7,15} (plus period-2^j tiles whose derivative collapses), autocorrelation d in {1,2,8,16,32} (plus tiles of period d / 2d), "
+                "cumulative sums forward/backward (plus walks forced to a maximum excursion Z log-uniform in [1,n], Z in {1,2,3,5,10,n/40,n/4,n/3,n/2,n-1,n} in the sweep). "
+                "oracle: naive references (fresh slice per derivative pass, explicit pair counting, walk maximum + the standard's normal-CDF series); |dP|,|dQ| <= 1e-8. "
+                "non-trivial: reference P inside (1e-12,1-1e-12). distinct: hash of the case JSON.")
+PROPS["C03"] = {
+    "level": "exploration",
+    "quick": shards(8, "TestC03", 1500, floor=500) + [S("TestC03Sweep", floor=20)],
+    "thorough": shards(15, "TestC03", 8000, floor=3000, timeout=3000) + [S("TestC03Sweep", floor=20)],
+    "assumptions": ["reference statistics validated on the annex known answers on every run", "math.Erfc trusted"],
+}
+
+RULES["C04"] = ("linear complexity: (a) every one of the 2^m blocks for m = 1..12 (quick) / 1..16 (thorough) as a one-block input (exhaustive); (b) m in {500,1000,(5000 thorough), 1..64} with "
+                "1..12 blocks each drawn from {LFSR output of drawn degree L in [0,m] or m/2+-6, all-zero, 0^(m-1)1, 1 0^(m-1), L leading zeros then random (complexity L+1), random, explicit bits} "
+                "+ a trailing partial block; rank: 1..40 row-major 32x32 matrices each built as a product of random 32xr and rx32 matrices (r in {32,31,28..30,0..32}) + trailing bits; "
+                "Maurer: n from 7*1281 to 60000 (some to 10^6 thorough), uniform/biased/constant/periodic/markov/sparse, optionally the 1280 initialisation blocks rewritten from a restricted 7-bit alphabet. "
+                "Half of the byte-aligned cases also go through the registry runner. oracle: bitset GF(2) elimination, textbook Berlekamp-Massey with growing slices, map-based Maurer; panic = violation; |dP|,|dQ| <= 1e-8. "
+                "non-trivial: a block whose complexity L has 2L-m outside [-2,3] (atypical class); a matrix of rank <= 30; a 7-bit pattern absent from the initialisation segment or reference P inside (1e-12,1-1e-12). distinct: hash of the case JSON.")
+PROPS["C04"] = {
+    "level": "exploration",
+    "quick": shards(6, "TestC04", 300, floor=100) + [S("TestC04", 300, mode="rank", floor=100), S("TestC04", 200, mode="maurer", floor=50)]
+             + [S("TestC04Exhaustive", floor=1000, env={"VERIF_LO": 1, "VERIF_HI": 12, "VERIF_PART": i, "VERIF_PARTS": 4}) for i in range(4)],
+    "thorough": shards(8, "TestC04", 2500, floor=800, timeout=3400) + shards(2, "TestC04", 2000, mode="rank", floor=500) + shards(2, "TestC04", 1500, mode="maurer", floor=300)
+             + [S("TestC04Exhaustive", floor=10000, env={"VERIF_LO": 1, "VERIF_HI": 16, "VERIF_PART": i, "VERIF_PARTS": 8}, timeout=3400) for i in range(8)],
+    "exhaustive": {"quick": "all 2^m one-block inputs of LinearComplexityProto for m = 1..12", "thorough": "all 2^m one-block inputs of LinearComplexityProto for m = 1..16"},
+    "assumptions": ["reference statistics validated on the annex known answers (e-expansion) on every run",
+                    "linear-complexity class probabilities are the printed decimals of the standard (0.010417 ... 0.020833)"],
+}
+
+RULES["C05"] = ("sequences from families {explicit bits, uniform, biased, constant, alternating, periodic, tone, markov, sparse, balanced, single transition}; n from "
+                "{2..64, 2^k, 2^k+1 (maximal padding), 2^k-1, 65..4096, 4097..2^15 (2^18 thorough)} plus a sweep over every n in 2..64 and {2^16,2^16+1,10^5,2^17,10^6 (2^19+1, 2^20 thorough)}; "
+                "half of the byte-aligned cases go through the byte entry point. oracle: magnitudes from a naive O(N^2) DFT (N <= 2048) or an independent recursive FFT; bins within relative 1e-9 "
+                "of the threshold are ambiguous and any count in [lo, lo+amb] is accepted; |dP|,|dQ| <= 1e-8. non-trivial: 0 < N1 and N1+amb < n/2-1 (the count discriminates). distinct: hash of the case JSON.")
+PROPS["C05"] = {
+    "level": "exploration",
+    "quick": shards(8, "TestC05", 500, floor=150) + [S("TestC05Sweep", floor=100)],
+    "thorough": shards(15, "TestC05", 4000, floor=1000, timeout=3400) + [S("TestC05Sweep", floor=100, env={"VERIF_HI": 300})],
+    "assumptions": ["n <= 2^20 executed (2^27 would need ~5 GB for the library and again for the oracle); the code path is size independent",
+                    "math.Sincos/cmplx.Abs trusted"],
+}
+
+RULES["C19"] = ("cases: transform (N = 2^p, p in 1..12 mostly, 13..15 (20 thorough) sometimes; input = unit impulse at a drawn position, pure tone at a drawn frequency, random complex, random +-1, "
+                "explicit rapid-drawn values for N <= 64), constructor arguments (-5..70, 2..70000, 2^k-1/2^k/2^k+1, 2^27+1, 2^28, 2^40, MaxInt64, negatives, 2..2^22), wrong-length slices "
+                "(0,1,N-1,N+1,2N,N/2,3) for Transform and Inverse; sweep: impulses and tones at every position for N <= 64 (256 thorough), every constructor argument -3..3000 (70000 thorough). "
+                "oracle: naive DFT for N <= 4096; analytic spectra of impulses/tones, 36 directly summed bins + Parseval above; tolerance 1e-12*log2(N)*|x|; Inverse(Transform(x)) = x. "
+                "non-trivial: N >= 4 and not the impulse at 0; constructor argument not itself a power of two or refused; every mismatch case. distinct: hash of the case JSON.")
+PROPS["C19"] = {
+    "level": "exploration",
+    "quick": shards(6, "TestC19", 700, floor=200) + [S("TestC19Sweep", floor=100)],
+    "thorough": shards(15, "TestC19", 5000, floor=1500, timeout=3400) + [S("TestC19Sweep", floor=100, env={"VERIF_HI": 70000}, timeout=3400)],
+    "assumptions": ["fft.New(2^27) itself is not constructed (3 GB); 2^27+1 and above are checked by argument only",
+                    "a panic on a wrong-length slice counts as 'refused' (the property says refused rather than computed)"],
+}
